@@ -261,10 +261,60 @@ func runC10(tier string) int {
 	if completed < maxLen {
 		r.NotExhaustive(fmt.Sprintf("completed argument token sequences of length <= %d of planned <= %d", completed, maxLen))
 	}
+	// the size dimension: commands with K arguments and straight-line stretches of K commands, for every K up to a bound
+	maxK := 80
+	if tier == "thorough" {
+		maxK = 400
+	}
+	argKinds := []argTok{{"a", "a", 0}, {"5", "5", 0}, {"K", "5", 0}, {"0x1F", "0x1F", 0}, {"é1", "é1", 0}, {"-1", "-1", 0}, {"K2", "1 + 2", 0}}
+	longDone := r.Parallel(uint64(maxK)*2, func(w int, idx uint64) {
+		k := int(idx/2) + 1
+		var src string
+		var want []string
+		if idx%2 == 0 {
+			var seq []argTok
+			for i := 0; i < k; i++ {
+				if i > 0 {
+					seq = append(seq, argTok{",", ",", 3})
+				}
+				seq = append(seq, argKinds[(i+k)%len(argKinds)])
+				if i%5 == 4 {
+					seq = append(seq, argTok{"+", "+", 0}, argTok{"(", "(", 1}, argKinds[i%len(argKinds)], argTok{")", ")", 2})
+				}
+			}
+			csrc, cout := c10Render("longcmd", seq)
+			src = "const K = 5\nconst K2 = 1 + 2\nscript S {\n\tpre\n\t" + csrc + "\n\tpost\n}\n"
+			want = []string{"S::", "\tpre", "\t" + cout, "\tpost", "\treturn"}
+		} else {
+			var sb strings.Builder
+			sb.WriteString("const K = 5\nconst K2 = 1 + 2\nscript S {\n")
+			want = []string{"S::"}
+			for i := 0; i < k; i++ {
+				a := argKinds[i%len(argKinds)]
+				fmt.Fprintf(&sb, "\tc%d(%s, %d)\n", i, a.src, i)
+				want = append(want, fmt.Sprintf("\tc%d %s, %d", i, a.out, i))
+			}
+			sb.WriteString("}\n")
+			src = sb.String()
+			want = append(want, "\treturn")
+		}
+		res := comp.Compile(src, comp.Opts{Optimize: true})
+		r.Add("evaluations", 1)
+		r.Add("nontrivial", 1)
+		r.Add("long_commands_and_stretches", 1)
+		got := nonBlank(strings.Split(res.Out, "\n"))
+		if res.Err != nil || res.Panic != "" || strings.Join(got, "\n") != strings.Join(want, "\n") {
+			r.Report(harness.Violation{Sig: fmt.Sprintf("C10:long:%d", idx%2), Summary: fmt.Sprintf("size %d: error %v; emitted %q\n  want %q", k, res.Err, clip(res.Out, 400), clip(strings.Join(want, "\n"), 400)), Replay: map[string]interface{}{"source": src, "want": strings.Join(want, "\n"), "output": res.Out}})
+		}
+	})
+	if !longDone {
+		r.NotExhaustive("long commands not completed")
+	}
+	r.Set("long_max_arguments_and_commands", maxK)
 	r.Set("max_tokens_completed", completed)
 	r.Set("alphabet", len(c10Alphabet))
 	r.Assume("expected line = name, then the source tokens joined by single spaces with no space before a comma; constants replaced by their value; an inline text / moves() that is a whole argument replaced by its label",
 		"no empty arguments, inline data only as whole arguments, parentheses balanced to depth 2 (the property's domain)")
 	return r.Finish(r.Get("evaluations"), r.Get("nontrivial"),
-		"every argument token sequence of length <= L over a 24-token alphabet (identifiers incl. multi-byte, keywords, decimal/negative/hex numbers, operators, an illegal character, parentheses, comma, two constants, inline text, moves()) that is in the domain, with 11 command names incl. case variants of end / return / goto / call (all names for <= 1 token, rotating beyond), in 10 contexts (alone, middle of a stretch, twice in a row, all on one line, inside an if body, inside a poryswitch case selected through _ / directly, last command of an if body / loop body / switch case); the whole emitted file is compared byte for byte with the generator's expectation; non-trivial = >= 2 arguments and nested parentheses")
+		"every argument token sequence of length <= L over a 24-token alphabet (identifiers incl. multi-byte, keywords, decimal/negative/hex numbers, operators, an illegal character, parentheses, comma, two constants, inline text, moves()) that is in the domain, with 11 command names incl. case variants of end / return / goto / call (all names for <= 1 token, rotating beyond), in 10 contexts (alone, middle of a stretch, twice in a row, all on one line, inside an if body, inside a poryswitch case selected through _ / directly, last command of an if body / loop body / switch case); plus commands with K arguments and stretches of K commands for every K up to the bound in the coverage; the whole emitted file is compared byte for byte with the generator's expectation; non-trivial = >= 2 arguments and nested parentheses")
 }
